@@ -170,9 +170,11 @@ void h_run(Case &c) {
     if (fl == 0) { CHECK(c, n >= 0, "export", "export of a symmetric synthetic topology failed (errno %d)", errno); e0 = big; }
     if (n < 0) { c.cls("export:failed-for-some-flags"); continue; }
     CHECK(c, (size_t)n < sizeof big && strlen(big) == (size_t)n, "export_len", "export returned %d but wrote %zu characters", n, strlen(big));
-    std::string full = big; int lens[] = {1, 2, 5, n > 2 ? n - 1 : 1, n, n + 1};
+    std::string full = big; std::vector<int> lens = {1, 2, 5, n > 2 ? n - 1 : 1, n, n + 1}; if (n <= 160) { lens.clear(); for (int z = 1; z <= n + 1; z++) lens.push_back(z); } else for (int z = 0; z < 12; z++) lens.push_back(1 + (int)(d.raw() % (unsigned)(n + 1)));   // every length for short descriptions, a sample for long ones
+    { int n0 = hwloc_topology_export_synthetic(t, NULL, 0, fl); CHECK(c, n0 == n, "export_len", "flags 0x%lx: (NULL, 0) returned %d, the text needs %d", fl, n0, n); }
     for (int sz : lens) { std::vector<char> buf(sz + 16, (char)0xA5); int n2 = hwloc_topology_export_synthetic(t, buf.data() + 8, sz, fl); for (int g = 0; g < 8; g++) CHECK(c, buf[g] == (char)0xA5 && buf[8 + sz + g] == (char)0xA5, "export_bounds", "flags 0x%lx buflen %d: wrote outside the buffer", fl, sz);
-      size_t l = strnlen(buf.data() + 8, sz); CHECK(c, l < (size_t)sz, "export_nul", "flags 0x%lx buflen %d: not NUL-terminated", fl, sz); CHECK(c, full.compare(0, l, buf.data() + 8, l) == 0, "export_prefix", "flags 0x%lx buflen %d: truncated text is not a prefix", fl, sz); (void)n2; }
+      size_t l = strnlen(buf.data() + 8, sz); CHECK(c, l < (size_t)sz, "export_nul", "flags 0x%lx buflen %d: not NUL-terminated", fl, sz); CHECK(c, full.compare(0, l, buf.data() + 8, l) == 0, "export_prefix", "flags 0x%lx buflen %d: truncated text is not a prefix", fl, sz);
+      CHECK(c, n2 == n, "export_len", "flags 0x%lx buflen %d: returned %d, the untruncated text needs %d", fl, sz, n2, n); }
     bool caches = false; for (auto &l : a.lv) if (hwloc_obj_type_is_cache(l.type)) caches = true;
     if ((fl & HWLOC_TOPOLOGY_EXPORT_SYNTHETIC_FLAG_NO_EXTENDED_TYPES) && caches) { c.cls("export:no-extended-types-with-caches(not reloadable by design)"); continue; }   // pitfall 9.3
     hwloc_topology_t q; hwloc_topology_init(&q); for (int ty = 0; ty < HWLOC_OBJ_TYPE_MAX; ty++) if (ty != HWLOC_OBJ_GROUP) hwloc_topology_set_type_filter(q, (hwloc_obj_type_t)ty, HWLOC_TYPE_FILTER_KEEP_ALL);
